@@ -520,6 +520,10 @@ func stageLit(st *shape.Stage) *ast.FuncLit {
 		}
 		return true
 	})
+	if out == nil && st.Frame.Decl != nil && st.Frame.Decl.Body != nil {
+		// `go x.worker(in, out)`: the stage's body is the declared function's
+		out = &ast.FuncLit{Type: st.Frame.Decl.Type, Body: st.Frame.Decl.Body}
+	}
 	return out
 }
 
@@ -540,6 +544,8 @@ type astUnits struct {
 	recv         map[string]Deg
 	recvByStream []recvBinding
 	stageFrame   *shape.Frame
+	contAlias    map[string]string // container parameter of an inlined helper -> the caller's container
+	depth        int
 }
 
 func (a *astUnits) varDeg(obj types.Object) Deg {
@@ -875,6 +881,10 @@ func (a *astUnits) expr(e ast.Expr) Deg {
 				return dZero()
 			}
 		}
+		// an unexported helper of the same package (an extracted piece of the body): typed through its body
+		if d, ok := a.inlineHelper(x, args); ok {
+			return d
+		}
 		// a nested pipeline inside a stage body (the EMA seed): its degree is that of the channel argument
 		for i, ar := range x.Args {
 			if t := a.info.TypeOf(ar); t != nil {
@@ -889,6 +899,9 @@ func (a *astUnits) expr(e ast.Expr) Deg {
 }
 
 func (a *astUnits) cont(recv string) Deg {
+	if al, ok := a.contAlias[recv]; ok {
+		recv = al
+	}
 	if d, ok := a.conts[recv]; ok {
 		return d
 	}
@@ -919,4 +932,51 @@ func (a *astUnits) chanDeg(obj types.Object, name string) Deg {
 	}
 	a.vars[obj] = d
 	return d
+}
+
+// inlineHelper types a call of an unexported, loop-tolerant helper function or method of the
+// module by inferring over its body with the arguments' degrees (containers passed as
+// arguments keep their element degree).
+func (a *astUnits) inlineHelper(call *ast.CallExpr, args []Deg) (Deg, bool) {
+	if declResolver == nil || a.depth > 2 {
+		return Deg{}, false
+	}
+	fn := callee(a.info, call)
+	if fn == nil || fn.Exported() {
+		return Deg{}, false
+	}
+	dfi := declResolver(fn.Origin())
+	if dfi == nil || dfi.Decl.Body == nil || dfi.Decl.Type.Params == nil {
+		return Deg{}, false
+	}
+	info := dfi.Pkg.TypesInfo
+	n := &astUnits{u: a.u, info: info, vars: map[types.Object]Deg{}, conts: a.conts, lo: dfi.Decl.Body.Pos(), hi: dfi.Decl.Body.End(),
+		where: a.where, recv: a.recv, contAlias: map[string]string{}, depth: a.depth + 1}
+	for k, v := range a.contAlias {
+		n.contAlias[k] = v
+	}
+	n.ret = a.u.fresh("ret")
+	i := 0
+	for _, f := range dfi.Decl.Type.Params.List {
+		for _, nm := range f.Names {
+			if i < len(args) {
+				if obj := info.Defs[nm]; obj != nil {
+					n.vars[obj] = args[i]
+				}
+				// a ring or tree passed on keeps its element degree
+				if i < len(call.Args) {
+					if t := a.info.TypeOf(call.Args[i]); t != nil && (strings.Contains(t.String(), "helper.Ring") || strings.Contains(t.String(), "helper.Bst")) {
+						caller := exprString(call.Args[i])
+						if al, ok := a.contAlias[caller]; ok {
+							caller = al
+						}
+						n.contAlias[nm.Name] = caller
+					}
+				}
+			}
+			i++
+		}
+	}
+	n.block(dfi.Decl.Body)
+	return n.ret, true
 }
